@@ -40,6 +40,9 @@ class World:
         f = {"list": FindInList(L), "all": FindInAll()}
         for n in self.names:
             f[n] = FindInPaths(n)
+        # a second FindInAll, created with a configuration name (the argument is handed to the configuration's routing;
+        # the name of the default path configuration denotes the same data sources as no name)
+        f["all:named"] = FindInAll(self.names[0])
         return f
 
 
